@@ -1,26 +1,26 @@
 // Kani concrete playback for harness k11_eq_clean_prod_sum (module c10k.rs)
 // replay: vcheck.py --replay /verif/replays/C11/k11_eq_clean_prod_sum.playback.rs
 #[test]
-fn kani_concrete_playback_k11_eq_clean_prod_sum_5843822175777030863() {
+fn kani_concrete_playback_k11_eq_clean_prod_sum_15719958794179094259() {
     let concrete_vals: Vec<Vec<u8>> = vec![
-        // 244
-        vec![244],
-        // 16
-        vec![16],
-        // 16
-        vec![16],
-        // 16
-        vec![16],
-        // 0ul
-        vec![0, 0, 0, 0, 0, 0, 0, 0],
-        // 180
-        vec![180],
-        // 180
-        vec![180],
-        // 180
-        vec![180],
-        // 180
-        vec![180],
+        // 2
+        vec![2],
+        // 4
+        vec![4],
+        // 4
+        vec![4],
+        // 4
+        vec![4],
+        // 1ul
+        vec![1, 0, 0, 0, 0, 0, 0, 0],
+        // 4
+        vec![4],
+        // 68
+        vec![68],
+        // 197
+        vec![197],
+        // 4
+        vec![4],
         // 0ul
         vec![0, 0, 0, 0, 0, 0, 0, 0],
     ];
